@@ -249,10 +249,15 @@ class StructExtract:
         out = []
         if self.extra:
             out.append(Line(self.extra, "unit", self.unit, self.uline))
+        is_struct = re.match(r"\s*(?:pub(?:\([a-z: ]+\))?\s+)?struct\b", text) is not None
         for k, l in enumerate(text.split("\n")):
             l2 = re.sub(r"\bpub\([a-z: ]+\)\s+", "pub ", l)
-            if re.match(r"\s*(#\[|///)", l2):
+            if re.match(r"\s*(#\[|///|//)", l2):
                 l2 = ""
+            if k == 0 and not re.match(r"\s*pub\b", l2):
+                l2 = "pub " + l2.lstrip()          # S1: visibility is dropped, everything is public inside the unit
+            elif is_struct and k > 0 and re.match(r"\s+[a-z_][A-Za-z0-9_]*\s*:", l2):
+                l2 = re.sub(r"^(\s+)", r"\1pub ", l2, count=1)
             out.append(Line(l2, "repo", self.file, first + k, self.name))
         self.log = dict(file=self.file, struct=self.name, lines=[first, line_of(src, cb)], rewrites={"S1": 1})
         return out
@@ -353,7 +358,7 @@ def parse_unit(path):
                 m = re.match(r"rewrite\s+(\d+)\s+`(.*)`\s*=>\s*`(.*)`(?:\s*::\s*(.*))?$", d)
                 if not m:
                     raise UnitError(f"{path}:{ln}: bad rewrite directive")
-                cur.rewrites.append(dict(count=int(m.group(1)), old=m.group(2), new=m.group(3), label=m.group(4) or "declared"))
+                cur.rewrites.append(dict(count=int(m.group(1)), old=m.group(2).replace("\\n", "\n"), new=m.group(3).replace("\\n", "\n"), label=m.group(4) or "declared"))
                 section = None
             else:
                 raise UnitError(f"{path}:{ln}: unknown directive {d}")
